@@ -336,5 +336,86 @@ theorem ctrlSpec_eq_forkSpec {M : Mat K} {c n : Nat} (hr : M.r = 2 ^ n) (hc : M.
   intro i j hi hj
   rw [get_eye hi hj]
 
+/-! ## (3) the denotation is the lifted block semantics, for every stack -/
+
+theorem liftSpec_dims (m : Mat K) (qs : List Nat) (n : Nat) :
+    (liftSpec m qs n).r = 2 ^ n ∧ (liftSpec m qs n).c = 2 ^ n := ⟨rfl, rfl⟩
+
+theorem denote_some {n : Nat} : ∀ (ms : List Modifier) (name : String) (θs : List K) (qs : List Nat) (D : Mat K),
+    (∀ q ∈ qs, q < n) → qs.Nodup → denote n ms name θs qs = some D →
+    ∃ m, smallDen ms name θs = some m ∧ m.r = 2 ^ qs.length ∧ extraQubits ms ≤ qs.length ∧
+      D = liftSpec m qs n := by
+  intro ms
+  induction ms with
+  | nil =>
+    intro name θs qs D hlt hnd h
+    simp only [denote] at h
+    cases hs : specMatrix name θs with
+    | none => rw [hs] at h; simp at h
+    | some U =>
+      rw [hs] at h
+      simp only at h
+      by_cases hU : U.r = 2 ^ qs.length
+      · rw [if_pos hU] at h; injection h with h
+        exact ⟨U, hs, hU, by simp [extraQubits], h.symm⟩
+      · rw [if_neg hU] at h; simp at h
+  | cons md ms ih =>
+    intro name θs qs D hlt hnd h
+    cases md with
+    | dagger =>
+      simp only [denote] at h
+      cases h' : denote n ms name θs qs with
+      | none => rw [h'] at h; simp at h
+      | some D' =>
+        rw [h'] at h; simp only [Option.map_some] at h; injection h with h
+        obtain ⟨m', hm', hr', hex, hD'⟩ := ih name θs qs D' hlt hnd h'
+        have hsq := (smallDen_square _ _ _ _ hm').2
+        refine ⟨adjoint m', by simp [smallDen, hm'], by simp [← hsq, hr'], by simpa [extraQubits] using hex, ?_⟩
+        rw [← h, hD', liftSpec_adjoint hr' (by rw [← hsq]; exact hr')]
+    | controlled =>
+      cases qs with
+      | nil => simp [denote] at h
+      | cons c qs' =>
+        simp only [denote] at h
+        cases h' : denote n ms name θs qs' with
+        | none => rw [h'] at h; simp at h
+        | some D' =>
+          rw [h'] at h; simp only [Option.map_some] at h; injection h with h
+          have hlt' : ∀ q ∈ qs', q < n := fun q hq => hlt q (List.mem_cons_of_mem _ hq)
+          have hnd' := (List.nodup_cons.mp hnd)
+          obtain ⟨m', hm', hr', hex, hD'⟩ := ih name θs qs' D' hlt' hnd'.2 h'
+          have hsq := (smallDen_square _ _ _ _ hm').2
+          have hc' : m'.c = 2 ^ qs'.length := by rw [← hsq]; exact hr'
+          refine ⟨blockSelect (eye m'.r) m', by simp [smallDen, hm'], ?_, by simpa [extraQubits] using hex, ?_⟩
+          · rw [(blockSelect_dims _ _).1, eye_r, hr', List.length_cons, pow_succ]; ring
+          · rw [← h, hD', ctrlSpec_eq_forkSpec (liftSpec_dims _ _ _).1 (liftSpec_dims _ _ _).2,
+              ← liftSpec_eye (K := K) qs' n, hr',
+              liftSpec_blockSelect (by simp) (by simp) hr' hc' (hlt c List.mem_cons_self) hnd'.1]
+    | forked =>
+      cases qs with
+      | nil => simp [denote] at h
+      | cons c qs' =>
+        simp only [denote] at h
+        by_cases hodd : θs.length % 2 ≠ 0
+        · rw [if_pos hodd] at h; simp at h
+        · rw [if_neg hodd] at h
+          have hlt' : ∀ q ∈ qs', q < n := fun q hq => hlt q (List.mem_cons_of_mem _ hq)
+          have hnd' := (List.nodup_cons.mp hnd)
+          cases h0 : denote n ms name (θs.take (θs.length / 2)) qs' with
+          | none => rw [h0] at h; simp at h
+          | some D0 =>
+            cases h1 : denote n ms name (θs.drop (θs.length / 2)) qs' with
+            | none => rw [h0, h1] at h; simp at h
+            | some D1 =>
+              rw [h0, h1] at h; simp only at h; injection h with h
+              obtain ⟨m0, hm0, hr0, hex, hD0⟩ := ih name _ qs' D0 hlt' hnd'.2 h0
+              obtain ⟨m1, hm1, hr1, _, hD1⟩ := ih name _ qs' D1 hlt' hnd'.2 h1
+              have hc0 : m0.c = 2 ^ qs'.length := by rw [← (smallDen_square _ _ _ _ hm0).2]; exact hr0
+              have hc1 : m1.c = 2 ^ qs'.length := by rw [← (smallDen_square _ _ _ _ hm1).2]; exact hr1
+              refine ⟨blockSelect m0 m1, by simp [smallDen, hodd, hm0, hm1], ?_,
+                by simpa [extraQubits] using hex, ?_⟩
+              · rw [(blockSelect_dims _ _).1, hr0, List.length_cons, pow_succ]; ring
+              · rw [← h, hD0, hD1, liftSpec_blockSelect hr0 hc0 hr1 hc1 (hlt c List.mem_cons_self) hnd'.1]
+
 end
 end QV.C15
